@@ -564,7 +564,7 @@ fn handler_task(tc: TaskCtx, resolver: h3::server::RequestResolver<SimConn, Byte
 
 /// The server driver task: builds the connection, then accepts requests (spawning one handler task per
 /// request) and executes commands from the scenario (shutdown(n), drop) by cancelling the pending accept.
-fn server_task(tc: TaskCtx, net: Net, cfg: Cfg, cmds: CmdQueue, handlers: Vec<Value>, default_handler: Vec<Value>, auto_accept: bool) -> Pin<Box<dyn Future<Output = ()>>> {
+fn server_task(tc: TaskCtx, net: Net, cfg: Cfg, cmds: CmdQueue, handlers: Vec<Value>, default_handler: Vec<Value>, auto_accept: bool, by_sid: Vec<Value>) -> Pin<Box<dyn Future<Output = ()>>> {
     Box::pin(async move {
         let built = tc.call("build", "conn", cfg.server_builder().build::<SimConn, Bytes>(net.conn())).await;
         let mut conn = match built {
@@ -633,7 +633,11 @@ fn server_task(tc: TaskCtx, net: Net, cfg: Cfg, cmds: CmdQueue, handlers: Vec<Va
                 Some(Ok(Some(resolver))) => {
                     let sid = resolver.frame_stream.id().into_inner();
                     tc.ret("accept", json!({"k": "some", "sid": sid}));
-                    let prog = handlers.get(accepted).and_then(|h| h.as_array().cloned()).unwrap_or(default_handler.clone());
+                    let prog = by_sid
+                        .get((sid / 4) as usize)
+                        .and_then(|h| h.as_array().cloned())
+                        .or_else(|| handlers.get(accepted).and_then(|h| h.as_array().cloned()))
+                        .unwrap_or(default_handler.clone());
                     accepted += 1;
                     let htc = tc.child(&format!("h{}", sid));
                     tc.spawn(&htc, handler_task(htc.clone(), resolver, prog));
@@ -940,7 +944,7 @@ pub fn run_one(scn: &Value) -> Vec<Value> {
     let mut meta = serde_json::Map::new();
     if let Some(o) = scn.as_object() {
         for (k, v) in o.iter() {
-            if !["steps", "handlers", "default_handler", "cfg", "id", "role"].contains(&k.as_str()) {
+            if !["steps", "handlers", "handlers_by_sid", "default_handler", "cfg", "id", "role"].contains(&k.as_str()) {
                 meta.insert(k.clone(), v.clone());
             }
         }
@@ -975,7 +979,8 @@ pub fn run_one(scn: &Value) -> Vec<Value> {
             vec![json!({"op": "resolve"}), json!({"op": "recv_body"}), json!({"op": "recv_trailers"})]
         });
         let auto = c["auto_accept"].as_bool().unwrap_or(true);
-        let fut = server_task(tc.clone(), n, Cfg::from(c), w.srv_cmds.clone(), handlers, default_handler, auto);
+        let by_sid = scn["handlers_by_sid"].as_array().cloned().unwrap_or_default();
+        let fut = server_task(tc.clone(), n, Cfg::from(c), w.srv_cmds.clone(), handlers, default_handler, auto, by_sid);
         w.exec.spawn("srv", tc.status.clone(), fut);
     }
     if role == "client" || role == "pair" {
